@@ -486,12 +486,44 @@ class MapfileTransformer(Transformer):
         v.value = f"NOT {v.value}"
         return v
 
+    def is_group(self, exp: str) -> bool:
+        """
+        Check if an expression is enclosed by a single matching pair of parentheses
+        e.g. "( [a] = 1 )" but not "([a]) + ([b])"
+        """
+        exp = exp.strip()
+        if not (exp.startswith("(") and exp.endswith(")")):
+            return False
+
+        depth = 0
+        quote = None
+        i = 0
+        while i < len(exp):
+            ch = exp[i]
+            if quote:
+                if ch == "\\":
+                    i += 1  # skip an escaped character inside a string
+                elif ch == quote:
+                    quote = None
+            elif ch in "\"'`":
+                quote = ch
+            elif ch == "(":
+                depth += 1
+            elif ch == ")":
+                depth -= 1
+                if depth == 0 and i < len(exp) - 1:
+                    # the opening parenthesis is closed before the end
+                    return False
+            i += 1
+
+        return True
+
     def expression(self, t):
         exp = " ".join(
             [str(v.value) for v in t]
         )  # convert to string for boolean expressions e.g. (true)
 
-        if not self.quoter.in_parenthesis(exp):
+        if not self.is_group(exp):
             t[0].value = f"({exp})"
 
         return t[0]
